@@ -11,6 +11,40 @@ EXPLANATION = (
     "variable name each reach an Err(PathError::..) constructor). NOT decided: the substitution result for all templates and environments.")
 
 
+def var_terminators(rep, F, cg):
+    """`each $NAME or ${NAME} is replaced by that variable's value`: where a name ends is part of what NAME means"""
+    R = 'VAR-TERMINATORS'
+    rep.rule(R, 'the scanner predicates of expand (the closures handed to take_while / take_while_p) are pure comparisons of the character with constants, the constants '
+             'are exactly \'$\' (literal text ends at a variable) and {\'$\', \'}\'} (a variable name ends at the next variable or at the closing brace), and they call '
+             'nothing (no character-class test can cut a name short)')
+    fn = 'sys::fs::path::expand'
+    cls = sorted(n for n in F.bodies if n.startswith(fn + '::{closure'))
+    sets, calls = [], []
+    for n in cls:
+        B = cg.body(n)
+        if B.local_ty(0) != 'bool':
+            continue
+        cs = set()
+        for i, j, s in B.assigns():
+            rv = s['rv']
+            if rv['k'] == 'binop' and rv['op'] in ('Eq', 'Ne'):
+                for o in (rv['l'], rv['r']):
+                    if o['k'] == 'const' and o.get('ty') == 'char':
+                        cs.add(int(o.get('int', o.get('sint', -1))))
+        for i in B.normal:
+            t = B.term(i)
+            if t['k'] == 'switch' and t.get('discr_ty') == 'char':
+                cs |= {int(v) for v, tb in t['targets']}
+        sets.append(cs)
+        calls += [(t.get('callee') or '') for i, t in B.calls()]
+    want = sorted([[36], [36, 125]])
+    got = sorted(sorted(c) for c in sets)
+    ok = got == want and not calls
+    rep.add(R, 'varterm:expand', 'literal text ends at $; a variable name ends at $ or }', ok, F.bodies[fn]['_file'] if fn in F.bodies else '',
+            '' if ok else 'the scanner predicates of expand compare against %s and call %s (expected the constants [[\'$\'], [\'$\', \'}\']] as code points %s and no calls): '
+            'variable names are delimited differently' % (got, sorted(set(calls)), want))
+
+
 def run(rep, F, ctx):
     cg = CallGraph(F)
     envrules.err_prop(rep, F, cg, [
@@ -45,12 +79,20 @@ def run(rep, F, ctx):
                     if tt['k'] == 'switch' and tt.get('discr_ty') == 'bool':
                         dl = op_local(tt['discr'])
                         ds = B.whole_defs(dl) if dl is not None else []
-                        if len(ds) == 1 and ds[0][0] == 'assign' and ds[0][4]['k'] == 'binop' and ds[0][4]['op'] == 'Gt':
+                        if len(ds) == 1 and ds[0][0] == 'assign' and ds[0][4]['k'] == 'binop' and ds[0][4]['op'] in ('Gt', 'Lt', 'Ge', 'Le'):
                             l, r = sdesc_operand(B, ds[0][4]['l']), sdesc_operand(B, ds[0][4]['r'])
-                            if l == 'count(matches(to_string(arg1)?,126))' and r == '1':
+                            cnt, op = 'count(matches(to_string(arg1)?,126))', ds[0][4]['op']
+                            if (op == 'Gt' and l == cnt and r == '1') or (op == 'Lt' and l == '1' and r == cnt) or \
+                                    (op == 'Ge' and l == cnt and r == '2') or (op == 'Le' and l == '2' and r == cnt):
                                 ok_guard = True
         rep.add('TILDE-COUNT', 'tildecount:expand', 'expand counts every ~ of the whole string and rejects more than one', ok_count and ok_guard, '%s:%d' % (B.file, B.line),
                 '' if (ok_count and ok_guard) else 'expand does not select its home-expansion arm by count(matches(whole path string, \'~\')) > 1 (count found: %s, guard found: %s): a ~ inside a component is not seen' % (ok_count, ok_guard))
+    var_terminators(rep, F, cg)
+    import primtable as _pt
+    _pt.prim_table(rep, F, cg, engine.load_table('primitives.json'), _pt.GROUPS['C17'])
+    import siteguard as _sg
+    _t = engine.load_table('site_guards.json')
+    _sg.site_guard(rep, F, cg, _t, _t['_groups']['C17'])
     return engine.finish(
         rep, 'other', EXPLANATION,
         assumptions=['std::env::var returns Err for an unset (or non-unicode) variable'],
